@@ -40,6 +40,13 @@ Proof.
   destruct (decide (d0 = d)) as [->|]; lia.
 Qed.
 
+Lemma pool_adj_get adj : forall p d, zget (pool_adj p adj) d = zget p d + lsum adj d.
+Proof.
+  induction adj as [|[d0 x] r IH]; intros p d; cbn [pool_adj fold_left lsum]; [lia|].
+  fold (pool_adj (zset p d0 (zget p d0 + x)) r). rewrite IH, zget_zset.
+  destruct (decide (d0 = d)) as [->|]; lia.
+Qed.
+
 Lemma sdk_burn_ok s m amt s' : sdk_burn s m amt = (s', B_OK) ->
   burner m = true /\ clist_valid amt = true /\
   (forall c d, balof s' c d = balof s c d - (if decide (m = c) then lsum amt d else 0)) /\
@@ -167,7 +174,8 @@ Qed.
 
 Lemma bstep_fail s o s' r : bstep s o = (s', r) -> r <> B_OK -> s' = s.
 Proof.
-  destruct o; cbn [bstep]; [apply burn_coins_fail|apply mint_coins_fail|apply send_coins_fail].
+  destruct o; cbn [bstep]; [apply burn_coins_fail|apply mint_coins_fail|apply send_coins_fail|].
+  inversion 1; subst. done.
 Qed.
 
 (** * histories *)
@@ -188,6 +196,10 @@ Definition eff_distr_send (s : bank) (o : bop) (d : N) : Z :=
   | _ => 0
   end.
 
+(** what the distribution keeper itself booked into the pool (10^-18 units) *)
+Definition eff_book (s : bank) (o : bop) (d : N) : Z :=
+  match o with DistrBook adj => lsum adj d | _ => 0 end.
+
 Fixpoint hsum (f : bank -> bop -> N -> Z) (ops : list bop) (s : bank) (d : N) : Z :=
   match ops with
   | [] => 0
@@ -201,7 +213,7 @@ Proof. unfold burner, DISTR, GOV, BONDED, NOTBONDED, EVM, ERC20, LIQUIDVESTING, 
 
 Lemma step_accounting s o d :
   let s' := fst (bstep s o) in
-  poolof s' d = poolof s d + eff_red s o d * dec_unit /\
+  poolof s' d = poolof s d + eff_red s o d * dec_unit + eff_book s o d /\
   supplyof s' d = supplyof s d + eff_mint s o d - eff_burn s o d /\
   balof s' DISTR d = balof s DISTR d + eff_red s o d + eff_distr_send s o d.
 Proof.
@@ -209,12 +221,13 @@ Proof.
   destruct (N.eq_dec r B_OK) as [->|Hr].
   2:{ rewrite (bstep_fail _ _ _ _ E Hr).
       assert (Hok : ok s o = false) by (unfold ok; rewrite E; cbn; by apply N.eqb_neq).
-      unfold eff_red, eff_burn, eff_mint, eff_distr_send. destruct o; rewrite Hok; cbn [andb]; lia. }
+      unfold eff_red, eff_burn, eff_mint, eff_distr_send, eff_book.
+      destruct o; try (rewrite Hok; cbn [andb]; lia). cbn [bstep] in E. inversion E; subst. done. }
   assert (Hok : ok s o = true) by (unfold ok; by rewrite E).
-  unfold eff_red, eff_burn, eff_mint, eff_distr_send. destruct o as [m amt|m amt|a b amt]; rewrite ?Hok; cbn [andb bstep] in *.
+  unfold eff_red, eff_burn, eff_mint, eff_distr_send, eff_book. destruct o as [m amt|m amt|a b amt|adj]; rewrite ?Hok; cbn [andb bstep] in *.
   - destruct (redirected m) eqn:Hm; cbn [negb].
     + destruct (burn_redirect_ok _ _ _ _ Hm E) as (_ & Hb & Hs & Hp). pose proof (redirected_not_distr _ Hm).
-      repeat split; [apply Hp|unfold supplyof; rewrite Hs; lia|].
+      repeat split; [rewrite Hp; lia|unfold supplyof; rewrite Hs; lia|].
       rewrite Hb. destruct (decide (m = DISTR)); [done|]. destruct (decide (DISTR = DISTR)); [lia|done].
     + destruct (other_modules_burn_normally _ _ _ _ Hm E) as (Hs & _ & Hb & Hp & _).
       unfold burn_coins in E. rewrite Hm in E. destruct (sdk_burn_ok _ _ _ _ E) as (Hbu & _).
@@ -226,10 +239,12 @@ Proof.
   - destruct (send_coins_ok _ _ _ _ _ E) as (_ & Hb & Hs & Hp).
     repeat split; [unfold poolof; rewrite Hp; lia|unfold supplyof; rewrite Hs; lia|].
     rewrite Hb. destruct (decide (a = DISTR)), (decide (b = DISTR)); lia.
+  - inversion E; subst s'; clear E. unfold poolof, supplyof, balof. cbn [b_pool b_supply b_bal].
+    rewrite pool_adj_get. repeat split; lia.
 Qed.
 
 Lemma history_accounting ops : forall s d,
-  poolof (brun ops s) d = poolof s d + hsum eff_red ops s d * dec_unit /\
+  poolof (brun ops s) d = poolof s d + hsum eff_red ops s d * dec_unit + hsum eff_book ops s d /\
   supplyof (brun ops s) d = supplyof s d + hsum eff_mint ops s d - hsum eff_burn ops s d /\
   balof (brun ops s) DISTR d = balof s DISTR d + hsum eff_red ops s d + hsum eff_distr_send ops s d.
 Proof.
@@ -242,13 +257,19 @@ Qed.
 
 (** no plain send to or from the distribution account *)
 Definition no_distr_send (o : bop) : Prop :=
-  match o with Send a b _ => a <> DISTR /\ b <> DISTR | _ => True end.
+  match o with Send a b _ => a <> DISTR /\ b <> DISTR | DistrBook _ => False | _ => True end.
 
 Lemma hsum_distr_send_zero ops : Forall no_distr_send ops -> forall s d, hsum eff_distr_send ops s d = 0.
 Proof.
   induction 1 as [|o r Ho _ IH]; intros s d; cbn [hsum]; [done|]. rewrite IH.
-  destruct o as [| |a b amt]; cbn [eff_distr_send]; try lia. destruct Ho.
+  destruct o as [| |a b amt|]; cbn [eff_distr_send]; try lia. destruct Ho.
   destruct (ok s _); [|lia]. destruct (decide (b = DISTR)), (decide (a = DISTR)); try done; lia.
+Qed.
+
+Lemma hsum_book_zero ops : Forall no_distr_send ops -> forall s d, hsum eff_book ops s d = 0.
+Proof.
+  induction 1 as [|o r Ho _ IH]; intros s d; cbn [hsum]; [done|]. rewrite IH.
+  destruct o; cbn [eff_book]; try lia. destruct Ho.
 Qed.
 
 Lemma history_redirected_sum ops s d : Forall no_distr_send ops ->
@@ -258,14 +279,14 @@ Lemma history_redirected_sum ops s d : Forall no_distr_send ops ->
   supplyof (brun ops s) d - supplyof s d = hsum eff_mint ops s d - hsum eff_burn ops s d.
 Proof.
   intros Hf. cbn zeta. destruct (history_accounting ops s d) as (H1 & H2 & H3).
-  rewrite (hsum_distr_send_zero _ Hf) in H3. unfold dec_unit in H1. lia.
+  rewrite (hsum_distr_send_zero _ Hf) in H3. rewrite (hsum_book_zero _ Hf) in H1. unfold dec_unit in H1. lia.
 Qed.
 
 (** ordinary burns and mints never touch the pool or the distribution account *)
 Lemma hsum_nonneg_red ops : forall s d, 0 <= hsum eff_red ops s d.
 Proof.
   induction ops as [|o r IH]; intros s d; cbn [hsum]; [lia|]. specialize (IH (fst (bstep s o)) d).
-  enough (0 <= eff_red s o d) by lia. unfold eff_red. destruct o as [m amt| |]; try lia.
+  enough (0 <= eff_red s o d) by lia. unfold eff_red. destruct o as [m amt| | |]; try lia.
   destruct (ok s (Burn m amt)) eqn:Hok; cbn [andb]; [|lia]. destruct (redirected m) eqn:Hm; [|lia].
   unfold ok in Hok. destruct (bstep s (Burn m amt)) as [s' r'] eqn:E. cbn in Hok. apply N.eqb_eq in Hok. subst r'.
   cbn [bstep] in E. destruct (burn_redirect_ok _ _ _ _ Hm E) as (Hv & _). exact (lsum_nonneg _ _ d Hv).
@@ -291,7 +312,8 @@ Lemma bstep_supply_inv s o : supply_inv s -> supply_inv (fst (bstep s o)).
 Proof.
   intros Hi d. destruct (bstep s o) as [s' r] eqn:E. cbn [fst].
   destruct (N.eq_dec r B_OK) as [->|Hr]; [|rewrite (bstep_fail _ _ _ _ E Hr); apply Hi].
-  destruct o as [m amt|m amt|a b amt]; cbn [bstep] in E.
+  destruct o as [m amt|m amt|a b amt|adj]; cbn [bstep] in E.
+  4:{ inversion E; subst s'. unfold supplyof. cbn [b_bal b_supply]. apply Hi. }
   - unfold burn_coins in E. destruct (redirected m) eqn:Hm.
     + destruct (send_coins s m DISTR amt) as [s1 r1] eqn:Hs. destruct r1 as [|p]; [|inversion E].
       inversion E; subst s'; clear E. unfold supplyof. cbn [b_bal b_supply].
@@ -319,7 +341,8 @@ Qed.
 
 (** the community pool stays backed by the distribution account's coins *)
 Definition pool_backed (s : bank) : Prop := forall d, poolof s d <= balof s DISTR d * dec_unit.
-Definition no_distr_debit (o : bop) : Prop := match o with Send a _ _ => a <> DISTR | _ => True end.
+Definition no_distr_debit (o : bop) : Prop :=
+  match o with Send a _ _ => a <> DISTR | DistrBook _ => False | _ => True end.
 
 Lemma send_amount_nonneg s a b amt s' d : send_coins s a b amt = (s', B_OK) -> 0 <= lsum amt d.
 Proof. intros H. destruct (send_coins_ok _ _ _ _ _ H) as (Hv & _). exact (lsum_nonneg _ _ d Hv). Qed.
@@ -329,8 +352,8 @@ Proof.
   induction 1 as [|o r Ho _ IH]; intros s Hi; cbn [brun fold_left]; [done|].
   apply IH. intros d. destruct (step_accounting s o d) as (G1 & _ & G3). cbn zeta in *.
   rewrite G1, G3. specialize (Hi d).
-  enough (0 <= eff_distr_send s o d) by (unfold dec_unit in *; lia).
-  destruct o as [| |a b amt]; cbn [eff_distr_send]; try lia. cbn in Ho.
+  enough (0 <= eff_distr_send s o d /\ eff_book s o d = 0) by (unfold dec_unit in *; lia).
+  destruct o as [| |a b amt|]; cbn [eff_distr_send eff_book]; try lia; [|destruct Ho]. cbn in Ho. split; [|done].
   destruct (ok s (Send a b amt)) eqn:Hok; [|lia].
   destruct (decide (a = DISTR)); [done|]. destruct (decide (b = DISTR)); [|lia].
   unfold ok in Hok. destruct (bstep s (Send a b amt)) as [s' r'] eqn:E. cbn in Hok. apply N.eqb_eq in Hok. subst r'.
@@ -385,4 +408,248 @@ Proof.
   - by apply brun_supply_inv.
   - apply brun_pool_backed; [|done]. repeat constructor; cbn; unfold COINOMICS, DISTR; lia.
   - vm_compute. repeat split.
+Qed.
+
+(** * sequences of community-pool events at one height and across heights *)
+From Coq Require Import Permutation.
+
+Ltac csimp := unfold get_fee_pool, set_fee_pool, cmove in *; cbn [c_supply c_pool c_distr c_out c_src c_other cadd cbal negb] in *.
+
+(** amounts of the events that went through *)
+Definition ce_red (s : cst) (e : cev) : Z :=
+  match e with EvBurn m x => if cok s e && redirected m then x else 0 | _ => 0 end.
+Definition ce_plain (s : cst) (e : cev) : Z :=
+  match e with EvBurn m x => if cok s e && negb (redirected m) then x else 0 | _ => 0 end.
+Definition ce_mint (s : cst) (e : cev) : Z :=
+  match e with EvMint x => if cok s e then x else 0 | _ => 0 end.
+Definition ce_fund (s : cst) (e : cev) : Z :=
+  match e with EvFund y => if cok s e then y else 0 | _ => 0 end.
+Definition ce_spend (s : cst) (e : cev) : Z :=
+  match e with EvSpend z => if cok s e then z else 0 | _ => 0 end.
+Definition ce_rem (s : cst) (e : cev) : Z :=          (* 10^-18 units *)
+  match e with
+  | EvRemainder _ r => if cok s e then r else 0
+  | EvAllocate _ c => if cok s e then c else 0
+  | _ => 0
+  end.
+(** net flow into the distribution account that is not a redirected burn, a
+    donation or a spend: fees in, rewards out, plain sends *)
+Definition ce_distr_other (s : cst) (e : cev) : Z :=
+  match e with
+  | EvRemainder p _ => if cok s e then - p else 0
+  | EvAllocate f _ => if cok s e then f else 0
+  | EvMove a b x => if cok s e then (match b with ADistr => x | _ => 0 end) - (match a with ADistr => x | _ => 0 end) else 0
+  | _ => 0
+  end.
+
+Fixpoint csum (f : cst -> cev -> Z) (evs : list cev) (s : cst) : Z :=
+  match evs with
+  | [] => 0
+  | e :: r => f s e + csum f r (cstep s e)
+  end.
+
+Lemma cstep_accounting s e :
+  let s' := cstep s e in
+  c_supply s' = c_supply s + ce_mint s e - ce_plain s e /\
+  c_pool s' = c_pool s + (ce_red s e + ce_fund s e - ce_spend s e) * dec_unit + ce_rem s e /\
+  c_distr s' = c_distr s + ce_red s e + ce_fund s e - ce_spend s e + ce_distr_other s e.
+Proof.
+  cbn zeta. unfold cstep, ce_mint, ce_plain, ce_red, ce_fund, ce_spend, ce_rem, ce_distr_other.
+  destruct (cok s e) eqn:Hok; [|destruct e; cbn [andb]; repeat split; lia].
+  destruct e as [m x|y|z|p r|f c|x|a b x|]; cbn [andb capply].
+  - destruct (redirected m); csimp; repeat split; lia.
+  - csimp; repeat split; lia.
+  - csimp; repeat split; lia.
+  - csimp; repeat split; lia.
+  - csimp; repeat split; lia.
+  - cbn [c_supply c_pool c_distr]; repeat split; lia.
+  - destruct a, b; csimp; repeat split; lia.
+  - repeat split; lia.
+Qed.
+
+(** over ALL sequences, from any state *)
+Lemma crun_accounting evs : forall s,
+  c_supply (crun evs s) = c_supply s + csum ce_mint evs s - csum ce_plain evs s /\
+  c_pool (crun evs s) = c_pool s + (csum ce_red evs s + csum ce_fund evs s - csum ce_spend evs s) * 10 ^ 18
+                        + csum ce_rem evs s /\
+  c_distr (crun evs s) = c_distr s + csum ce_red evs s + csum ce_fund evs s - csum ce_spend evs s
+                         + csum ce_distr_other evs s.
+Proof.
+  induction evs as [|e r IH]; intros s; cbn [crun fold_left csum]; [lia|].
+  fold (crun r (cstep s e)). destruct (IH (cstep s e)) as (H1 & H2 & H3).
+  destruct (cstep_accounting s e) as (G1 & G2 & G3). cbn zeta in *. unfold dec_unit in *.
+  rewrite H1, H2, H3, G1, G2, G3. lia.
+Qed.
+
+Lemma crun_supply evs s :
+  c_supply (crun evs s) = c_supply s + csum ce_mint evs s - csum ce_plain evs s.
+Proof. apply crun_accounting. Qed.
+
+Lemma crun_pool evs s :
+  c_pool (crun evs s) = c_pool s + (csum ce_red evs s + csum ce_fund evs s - csum ce_spend evs s) * 10 ^ 18
+                        + csum ce_rem evs s.
+Proof. apply crun_accounting. Qed.
+
+Lemma crun_distr evs s :
+  c_distr (crun evs s) = c_distr s + csum ce_red evs s + csum ce_fund evs s - csum ce_spend evs s
+                         + csum ce_distr_other evs s.
+Proof. apply crun_accounting. Qed.
+
+(** no ordinary burn and no mint in the sequence: the supply is untouched *)
+Definition no_supply_event (e : cev) : Prop :=
+  match e with EvBurn m _ => redirected m = true | EvMint _ => False | _ => True end.
+
+Lemma crun_supply_unchanged evs : Forall no_supply_event evs -> forall s, c_supply (crun evs s) = c_supply s.
+Proof.
+  induction 1 as [|e r He _ IH]; intros s; cbn [crun fold_left]; [done|].
+  fold (crun r (cstep s e)). rewrite IH. destruct (cstep_accounting s e) as (G1 & _). cbn zeta in G1. rewrite G1.
+  unfold ce_mint, ce_plain. destruct e as [m x| | | | | | |]; cbn in He; try lia; try done.
+  rewrite He. cbn [negb]. rewrite andb_false_r. lia.
+Qed.
+
+(** when every event goes through, the sums do not depend on the states, hence
+    not on the order *)
+Fixpoint all_ok (evs : list cev) (s : cst) : Prop :=
+  match evs with
+  | [] => True
+  | e :: r => cok s e = true /\ all_ok r (cstep s e)
+  end.
+
+Definition pool_booking (e : cev) : Z :=      (* 10^-18 units *)
+  match e with
+  | EvBurn m x => if redirected m then x * 10 ^ 18 else 0
+  | EvFund y => y * 10 ^ 18
+  | EvSpend z => - (z * 10 ^ 18)
+  | EvRemainder _ r => r
+  | EvAllocate _ c => c
+  | _ => 0
+  end.
+Fixpoint pool_bookings (evs : list cev) : Z :=
+  match evs with [] => 0 | e :: r => pool_booking e + pool_bookings r end.
+
+Lemma crun_pool_all_ok evs : forall s, all_ok evs s -> c_pool (crun evs s) = c_pool s + pool_bookings evs.
+Proof.
+  induction evs as [|e r IH]; intros s Hok; cbn [crun fold_left pool_bookings]; [lia|].
+  destruct Hok as [Hk Hr]. fold (crun r (cstep s e)). rewrite (IH _ Hr).
+  destruct (cstep_accounting s e) as (_ & G2 & _). cbn zeta in G2. rewrite G2.
+  unfold ce_red, ce_fund, ce_spend, ce_rem, pool_booking, dec_unit. rewrite Hk.
+  destruct e as [m x| | | | | | |]; cbn [andb]; try lia. destruct (redirected m); lia.
+Qed.
+
+Lemma pool_bookings_perm evs evs' : Permutation evs evs' -> pool_bookings evs = pool_bookings evs'.
+Proof.
+  induction 1; cbn [pool_bookings]; lia.
+Qed.
+
+Lemma crun_pool_any_interleaving evs evs' s :
+  Permutation evs evs' -> all_ok evs s -> all_ok evs' s -> c_pool (crun evs' s) = c_pool (crun evs s).
+Proof.
+  intros Hp H1 H2. rewrite (crun_pool_all_ok _ _ H1), (crun_pool_all_ok _ _ H2), (pool_bookings_perm _ _ Hp). done.
+Qed.
+
+(** the distribution account covers the community pool and the outstanding
+    rewards (the crisis invariant of x/distribution, as an inequality) *)
+Definition covered (s : cst) : Prop := 0 <= c_out s /\ c_pool s + c_out s <= c_distr s * 10 ^ 18.
+Definition no_distr_move_out (e : cev) : Prop := match e with EvMove ADistr _ _ => False | _ => True end.
+
+Lemma cstep_covered s e : no_distr_move_out e -> covered s -> covered (cstep s e).
+Proof.
+  unfold covered, cstep. intros He [H0 H1]. destruct (cok s e) eqn:Hok; [|done].
+  destruct e as [m x|y|z|p r|f c|x|a b x|]; cbn [cok capply] in *.
+  - destruct (redirected m); csimp; unfold dec_unit in *;
+      repeat (apply andb_prop in Hok; destruct Hok as [Hok ?]); lia.
+  - csimp. unfold dec_unit in *.
+    repeat (apply andb_prop in Hok; destruct Hok as [Hok ?]). lia.
+  - csimp. unfold dec_unit in *.
+    repeat (apply andb_prop in Hok; destruct Hok as [Hok ?]). lia.
+  - csimp. unfold dec_unit in *.
+    repeat (apply andb_prop in Hok; destruct Hok as [Hok ?]). lia.
+  - csimp. unfold dec_unit in *.
+    repeat (apply andb_prop in Hok; destruct Hok as [Hok ?]). lia.
+  - cbn [c_out c_pool c_distr]. lia.
+  - destruct a; [|done|]; destruct b; csimp;
+      repeat (apply andb_prop in Hok; destruct Hok as [Hok ?]); lia.
+  - done.
+Qed.
+
+Lemma crun_covered evs : Forall no_distr_move_out evs -> forall s, covered s -> covered (crun evs s).
+Proof.
+  induction 1 as [|e r He _ IH]; intros s Hi; cbn [crun fold_left]; [done|].
+  apply IH. by apply cstep_covered.
+Qed.
+
+Lemma covered_pool_le_distr s : covered s -> c_pool s <= c_distr s * 10 ^ 18.
+Proof. unfold covered. lia. Qed.
+
+Lemma crun_covers_pool evs : Forall no_distr_move_out evs -> forall s, covered s ->
+  covered (crun evs s) /\ c_pool (crun evs s) <= c_distr (crun evs s) * 10 ^ 18.
+Proof. intros H s Hc. pose proof (crun_covered evs H s Hc). split; [done|]. by apply covered_pool_le_distr. Qed.
+
+(** supply = sum of the three groups of balances *)
+Definition csupply_inv (s : cst) : Prop := c_supply s = c_src s + c_distr s + c_other s.
+Lemma cstep_supply_inv s e : csupply_inv s -> csupply_inv (cstep s e).
+Proof.
+  unfold csupply_inv, cstep. intros Hi. destruct (cok s e); [|done].
+  destruct e as [m x|y|z|p r|f c|x|a b x|]; cbn [capply].
+  - destruct (redirected m); csimp; lia.
+  - csimp; lia.
+  - csimp; lia.
+  - csimp; lia.
+  - csimp; lia.
+  - cbn [c_supply c_src c_distr c_other]; lia.
+  - destruct a, b; csimp; lia.
+  - done.
+Qed.
+Lemma crun_supply_inv evs : forall s, csupply_inv s -> csupply_inv (crun evs s).
+Proof.
+  induction evs as [|e r IH]; intros s Hi; cbn [crun fold_left]; [done|]. apply IH. by apply cstep_supply_inv.
+Qed.
+
+(** ** the memoising variant loses what others book between two redirected burns of one height *)
+Definition ex_cst : cst := mkcst 100000 (5 * 10 ^ 18) 12 (6 * 10 ^ 18 + 250) 5000 94988.
+Definition ex_kst : kst := mkkst ex_cst 7 None.
+
+(** slash 100; MsgFundCommunityPool 777; deposit burn 400 -- one height *)
+Definition ex_one_block : list cev := [redirected_burn 100; EvFund 777; EvBurn GOV 400].
+(** one slash: burn of an unbonding entry, the hook of Unbond books a remainder, burn of the redelegated stake *)
+Definition ex_one_slash : list cev := [EvBurn NOTBONDED 30; EvRemainder 2 250; EvBurn BONDED 70].
+
+Example ex_seq_faithful :
+  covered ex_cst /\ csupply_inv ex_cst /\ all_ok ex_one_block ex_cst /\ all_ok ex_one_slash ex_cst /\
+  crun ex_one_block ex_cst = mkcst 100000 (1282 * 10 ^ 18) 1289 (6 * 10 ^ 18 + 250) 4500 94211 /\
+  crun ex_one_slash ex_cst = mkcst 100000 (105 * 10 ^ 18 + 250) 110 (4 * 10 ^ 18) 4900 94990.
+Proof. vm_compute. repeat split; congruence. Qed.
+
+Example memo_loses_interleaved_fund :
+  let s := crun ex_one_block ex_cst in
+  let s' := k_st (krun ex_one_block ex_kst) in
+  c_pool s = c_pool ex_cst + (100 + 777 + 400) * 10 ^ 18 /\
+  c_pool s' = c_pool ex_cst + (100 + 400) * 10 ^ 18 /\
+  c_supply s' = c_supply s /\ c_distr s' = c_distr s /\ c_out s' = c_out s /\
+  c_distr s' * 10 ^ 18 - (c_pool s' + c_out s') = (c_distr ex_cst * 10 ^ 18 - (c_pool ex_cst + c_out ex_cst)) + 777 * 10 ^ 18.
+Proof. vm_compute. repeat split. Qed.
+
+Example memo_loses_hook_remainder :
+  let s := crun ex_one_slash ex_cst in
+  let s' := k_st (krun ex_one_slash ex_kst) in
+  c_pool s = c_pool ex_cst + 100 * 10 ^ 18 + 250 /\
+  c_pool s' = c_pool ex_cst + 100 * 10 ^ 18 /\
+  c_supply s' = c_supply s /\ c_distr s' = c_distr s /\ c_out s' = c_out s.
+Proof. vm_compute. repeat split. Qed.
+
+(** a single redirected burn per height, or several with nothing in between, show nothing *)
+Example memo_agrees_across_heights :
+  k_st (krun [redirected_burn 100; EvFund 777; EvNextBlock; EvBurn GOV 400] ex_kst)
+    = crun [redirected_burn 100; EvFund 777; EvNextBlock; EvBurn GOV 400] ex_cst /\
+  k_st (krun [redirected_burn 100; EvBurn GOV 400; EvFund 777] ex_kst)
+    = crun [redirected_burn 100; EvBurn GOV 400; EvFund 777] ex_cst.
+Proof. vm_compute. split; reflexivity. Qed.
+
+Lemma memo_refuted :
+  exists evs k, k_memo k = None /\ covered (k_st k) /\ all_ok evs (k_st k) /\
+    Forall (fun e => e <> EvNextBlock) evs /\
+    c_pool (k_st (krun evs k)) <> c_pool (crun evs (k_st k)).
+Proof.
+  exists ex_one_block, ex_kst. split; [done|]. split; [vm_compute; split; congruence|].
+  split; [vm_compute; done|]. split; [repeat constructor; discriminate|]. vm_compute. discriminate.
 Qed.
